@@ -37,10 +37,17 @@ META = {
             "filters, generator): every valid history up to length 3 over a reduced alphabet (quick) or 4 (thorough), "
             "every valid history up to length 2 over the full alphabet, then seeded random histories up to length 12 "
             "(quick) or 40 (thorough); a history is non-trivial when some process after the first one reprocesses or "
-            "deletes something; distinct by event sequence",
-    "assumptions": ["xform_frame: a transformation result depends only on the source text and the registered external files",
-                    "hash_faithful: configurations with equal hashes behave equally",
-                    "the watcher delivers the events of file_watcher.rs::process_events for each change (reported)"],
+            "deletes something; distinct by event sequence; for the oracle stream the unit is a process point and "
+            "non-trivial means all hypotheses of the theorem hold there",
+    "assumptions": ["xform_frame: a successful transformation result depends only on the source text and the registered "
+                    "external files (checked on every real result of the run)",
+                    "hash_faithful: configurations with equal hashes behave equally (the run checks the hash is "
+                    "injective on the configurations it uses; xxh3 collisions are not considered)",
+                    "the watcher delivers the events of file_watcher.rs::process_events for each change (reported); "
+                    "the notify/debouncer layer itself is not modelled",
+                    "carve-outs of the theorem: always_healthy (every source transforms at every process) and dirs_ok "
+                    "(directory removals do not involve registered external dependencies) - outside them the model "
+                    "reproduces the recorded findings F1-F4"],
 }
 
 PREAMBLE = """From DL Require Import Lib.Bytes Model.WorkerFs Model.Worker Model.WorkerCheck.
@@ -54,11 +61,18 @@ Definition diag_case (c : c10_case) : string :=
 CONFIG_PATH = ".darklua.json"
 
 KNOWN_CLASSES = {
-    # class -> (key, description)
-    "F1": "stale-output-kept:Worker::advance_work-error-path",
+    "F1": "stale-output-kept:WorkerTree::process-error-arm",
     "F2": "failed-require-not-registered:BuildModuleDefinitions::apply",
-    "F3": "remove-directory-stale-node-index:WorkerTree::remove_source",
-    "F4": "remove-directory-dependents-not-restarted:WorkerTree::remove_source",
+    "F3": "remove-directory-stale-node-index:WorkerTree::remove_source-directory-arm",
+    "F4": "remove-directory-dependents-not-restarted:WorkerTree::remove_source-directory-arm",
+}
+KNOWN_TEXT = {
+    "F1": "a source that stops transforming keeps the output of an earlier pass (a fresh run writes nothing for it)",
+    "F2": "a bundle entry that failed on a missing or broken required file is not retried when that file is "
+          "repaired or re-created (failed requires are not registered as dependencies)",
+    "F3": "the worker panics on the next notification for a file that was an external dependency of an item "
+          "removed with its directory (stale node index in external_dependencies)",
+    "F4": "items that read a file inside a removed directory are not restarted (status stays ok, old output kept)",
 }
 
 
@@ -181,7 +195,8 @@ def expected_tree(rec, step):
 
 
 def classify(rec, k, step, scope):
-    """finding class of a difference between the worker's tree and the fresh tree at step k"""
+    """finding classes of the differences between the worker's tree and the fresh tree at step k,
+    decided from the evidence in the two state dumps (never from the verdict alone)"""
     exp = expected_tree(rec, step)
     got = step["out"]
     classes = set()
@@ -195,17 +210,50 @@ def classify(rec, k, step, scope):
         if w is None or f is None:
             classes.add("?")
         elif w["status"] == "err" and f["status"] == "err" and p in got and p not in exp:
-            classes.add("F1")
+            classes.add("F1")      # the failing item kept the output of an earlier pass
         elif w["status"] == "err" and f["status"] == "ok":
-            classes.add("F2")
-        elif w["status"] == "ok" and f["status"] == "ok" and "h" in scope:
-            # reprocessed neither after the dependency failed nor after it was repaired
-            classes.add("F2")
+            classes.add("F2")      # failed earlier, would succeed now, was not retried
         elif w["status"] == "ok" and f["status"] == "err" and had_dir_removal and "d" in scope:
-            classes.add("F4")
+            classes.add("F4")      # a dependency went away with its directory, item not restarted
         else:
             classes.add("?")
     return classes
+
+
+def check_xform_hypotheses(records):
+    """the section hypotheses about xform, tested on every real transformation result seen:
+    success-only frame, registered dependencies exist and lie outside the output folder"""
+    groups = {}
+    n = 0
+    problems = []
+    for rec in records:
+        cfg = 0
+        for step in rec["steps"]:
+            if step["ev"].startswith("C:"):
+                cfg = int(step["ev"][2:])
+            if step["ev"] != "P" or "fresh" not in step or not step["fresh"]["state"]:
+                continue
+            ufs = step["user_files"]
+            for it in step["fresh"]["state"]["items"]:
+                if it["status"] != "ok":
+                    continue
+                out = step["fresh"]["out"].get(it["output"])
+                key = (cfg, it["source"], ufs.get(it["source"]))
+                view = tuple((d, ufs.get(d)) for d in it["deps"])
+                n += 1
+                for d, c in view:
+                    if c is None:
+                        problems.append(("deps_exist", rec["h"], it["source"], d))
+                    if d.startswith("out/"):
+                        problems.append(("deps_outside", rec["h"], it["source"], d))
+                groups.setdefault(key, {}).setdefault(view, set()).add((out, tuple(it["deps"])))
+    # frame: same configuration, source text and content of the registered files -> same result;
+    # and a successful result must stay the same on any file system that agrees on its dependencies
+    for key, views in groups.items():
+        for view, results in views.items():
+            if len(results) > 1:
+                problems.append(("xform_frame", key, view, sorted(map(str, results))[:2]))
+    return n, len(groups), problems
 
 
 def run(ctx):
@@ -215,13 +263,13 @@ def run(ctx):
     overrides = [l for l in grep.splitlines() if "src/rules/mod.rs" not in l]
     ctx.obligation("no rule overrides Rule::require_content (model collapses InProgress/edges)", not overrides,
                    "; ".join(overrides[:3]))
-    proofs_ok = C.proof_gate(ctx)
+    proofs_ok = C.proof_gate(ctx, extra_targets=["Model/WorkerCheck.vo"])
 
     quick = ctx.tier == "quick"
     streams = [
         ("exhaustive, reduced alphabet", ["enum", "--len", "3" if quick else "4"]),
         ("exhaustive, full alphabet", ["enum", "--len", "2", "--alphabet", "full"]),
-        ("random", ["random", "--seed", str(ctx.seed), "--n", "250" if quick else "3000",
+        ("random", ["random", "--seed", str(ctx.seed), "--n", "300" if quick else "3000",
                     "--len", "12" if quick else "40"]),
     ]
     records = []
@@ -257,25 +305,28 @@ def run(ctx):
     hash_problems = [k for k, v in all_hashes.items() if len(v) != 1]
     flat = [sorted(v)[0] for v in all_hashes.values()]
     if hash_problems or len(set(flat)) != len(flat):
-        ctx.violation("configuration hash is not a function of / not injective on the configurations used",
-                      {"hashes": {str(k): sorted(v) for k, v in all_hashes.items()}}, key="config-hash")
+        ctx.violation("configuration hash is not a function of / not injective on the configurations used "
+                      "(a configuration change would be invisible to the worker)",
+                      {"hashes": {str(k): ["%016x" % x for x in sorted(v)] for k, v in all_hashes.items()}},
+                      key="config-hash")
 
     model_bad = []
     nontrivial = {}
     n_points = 0
     n_in_scope = 0
-    oracle_bad = []
+    class_counts = {}
     samples = []
     for cid, rec in enumerate(records):
         stream = rec["stream"]
+        replay_cmd = "harness/target/release/dl-c10 run '%s'" % rec["h"]
         if rec["verdict"] == "hang":
-            ctx.violation("the worker did not finish a history within the time limit",
-                          {"history": rec["h"], "replay": "dl-c10 run '%s'" % rec["h"]}, key="hang:" + rec["h"])
+            ctx.violation("the worker did not finish a history within the time limit (loop)",
+                          {"history": rec["h"], "replay": replay_cmd}, key="hang:" + rec["h"])
             continue
-        m = re.match(r"model\[(.*)\] scope\[(.*)\]$", diags[cid], flags=re.S)
+        m = re.match(r"model\[(.*)\] scope\[(.*)=(\w*)\]$", diags[cid], flags=re.S)
         if not m:
             raise C.CheckBroken("cannot parse diagnosis %r" % diags[cid])
-        model_diag, scopes = m.group(1), m.group(2).split()
+        model_diag, scopes, full_scope = m.group(1), m.group(2).split(), m.group(3)
         points = process_points(rec)
         if model_diag:
             model_bad.append((rec["h"], model_diag))
@@ -287,8 +338,8 @@ def run(ctx):
                 trivial = False
         if not trivial:
             nontrivial[stream] = nontrivial.get(stream, 0) + 1
-        if len(samples) < 3 and not trivial and rec["verdict"] == "ok":
-            samples.append({"history": rec["h"], "scope_at_each_process": scopes})
+        if len(samples) < 3 and not trivial and rec["verdict"] == "ok" and len(rec["steps"]) > 3:
+            samples.append({"history": rec["h"], "hypotheses_at_each_process": scopes})
         # ---- oracle (a): the fresh run
         for j, k in enumerate(points):
             step = rec["steps"][k]
@@ -299,27 +350,33 @@ def run(ctx):
             if step["equal_fresh"]:
                 continue
             classes = classify(rec, k, step, scope)
-            replay = {"history": rec["h"], "process_index": j, "scope": scope,
-                      "replay": "dl-c10 run '%s'" % rec["h"], "classes": sorted(classes)}
+            replay = {"history": rec["h"], "process_index": j, "hypotheses": scope,
+                      "replay": replay_cmd, "classes": sorted(classes),
+                      "differences": [p for p in sorted(set(expected_tree(rec, step)) | set(step["out"]))
+                                      if expected_tree(rec, step).get(p) != step["out"].get(p)]}
             if in_scope or "?" in classes:
-                oracle_bad.append(replay)
-                ctx.violation("output tree after process differs from a fresh run (inside the theorem's scope: %s)" % in_scope,
+                ctx.violation("the output tree after a process differs from a fresh run over the same inputs "
+                              "(%s the hypotheses of the theorem)" % ("inside" if in_scope else "outside"),
                               replay, key="differs:" + rec["h"])
             else:
                 for c in classes:
-                    ctx.violation("known class " + c, replay, key=KNOWN_CLASSES[c])
+                    class_counts[c] = class_counts.get(c, 0) + 1
+                    ctx.violation(KNOWN_TEXT[c], replay, key=KNOWN_CLASSES[c])
         if rec["verdict"] == "panic":
-            scope_after = scopes[-1] if scopes else ""
             msg = rec["detail"]["message"]
             replay = {"history": rec["h"], "message": msg, "at": rec["detail"]["event"],
-                      "replay": "dl-c10 run '%s'" % rec["h"]}
-            # the carve-out K-dir is evaluated by the model on the whole history
-            dir_before = any(s["ev"].startswith("D:") for s in rec["steps"])
-            if dir_before and ("fixedbitset" in msg or "node index should exist" in msg) and "model panics" not in model_diag \
-                    and not model_diag:
-                ctx.violation("worker panics", replay, key=KNOWN_CLASSES["F3"])
+                      "hypotheses": full_scope, "replay": replay_cmd}
+            stale_index = "fixedbitset" in msg or "node index should exist" in msg
+            if stale_index and "D" not in full_scope and "d" in full_scope and not model_diag:
+                class_counts["F3"] = class_counts.get("F3", 0) + 1
+                ctx.violation(KNOWN_TEXT["F3"], replay, key=KNOWN_CLASSES["F3"])
             else:
                 ctx.violation("the worker panics: " + msg, replay, key="panic:" + rec["h"])
+
+    n_x, n_groups, x_problems = check_xform_hypotheses(records)
+    for prob in x_problems[:3]:
+        ctx.violation("a hypothesis about the transformation (%s) fails on real results" % prob[0],
+                      {"what": [str(x) for x in prob]}, key="xform-hypothesis:" + prob[0])
 
     by_stream = {}
     for rec in records:
@@ -327,9 +384,11 @@ def run(ctx):
     for name, count in by_stream.items():
         ctx.stream("WorkerTree state and output tree after every event: model vs Rust (%s)" % name, count,
                    nontrivial.get(name, 0), samples if name.startswith("exhaustive, reduced") else [],
-                   mismatches=len([1 for h, _ in model_bad]))
+                   mismatches=len(model_bad))
     ctx.stream("output tree after every process vs a fresh darklua_core::process (oracle)", n_points, n_in_scope, [],
-               in_scope_process_points=n_in_scope, unexplained=len(oracle_bad))
+               process_points_inside_the_hypotheses=n_in_scope, known_class_hits=class_counts)
+    ctx.stream("hypotheses about xform on real results (frame, deps exist, deps outside output)", n_x, n_groups, [],
+               problems=len(x_problems))
 
     if model_bad and not ctx.violations:
         h, d = model_bad[0]
@@ -337,7 +396,7 @@ def run(ctx):
                       "(the theorems no longer apply to the code); no output tree differs from a fresh run "
                       "outside the recorded classes",
                       {"stream": "state model-vs-code", "history": h, "diag": d, "mismatches": len(model_bad),
-                       "replay": "dl-c10 run '%s'" % h}, found_input=False)
+                       "replay": "harness/target/release/dl-c10 run '%s'" % h}, found_input=False)
     if not proofs_ok and not ctx.violations:
         failed = [n for n, ok, _ in ctx.obligations if not ok]
         ctx.violation("proof obligation no longer checks: " + "; ".join(failed), {"obligations": failed},
